@@ -50,7 +50,7 @@ def coding_cases(draw, tier, fast=None, vt=None, message=None, force_table=False
         case["table_dtype"] = draw(st.sampled_from(["int64", "float64", "int8", "float32"]))
     if options == "dtype":
         case["layout"] = draw(st.sampled_from(["int32", "int16"]))
-        case["msg_dtype"] = draw(st.sampled_from(["int8", "uint8", "int32", "list"]))
+        case["msg_dtype"] = draw(st.sampled_from(["int8", "uint8", "int32", "list", "strided", "readonly"]))
     return case
 
 
